@@ -27,6 +27,60 @@ def canon(plan):
     return json.dumps(p, sort_keys=True)
 
 
+def tie_scenarios(g, n):
+    r = g.r
+    out = []
+    for k in range(n):
+        ws = r.sample(gen.VOCAB, 28)
+        word = r.choice(["foo", "qux", "zap", "wob"])
+        a, b = r.sample(["Snake", "Camel", "Pascal", "Kebab"], 2)
+        ext = r.choice([".txt", ".md", "", ".cfg"])
+        lines = [f"value {word} here"]
+        for j in range(26):
+            pair = [ws[j], ws[j + 1]]
+            lines += [gen.render(pair, a), gen.render(pair, b)]
+        r.shuffle(lines)
+        same = [{"p": "tie" + ext, "k": "f", "c": ("\n".join(lines) + "\n").encode(), "m": 0o644}]
+        pre = r.choice(["use", "let", "call", "from"])
+        conv = [f"{pre} {gen.render([ws[j], ws[j + 1]], a)}" for j in range(3)] + [f"{pre} {gen.render([ws[j + 3], ws[j + 4]], b)}" for j in range(3)]
+        r.shuffle(conv)
+        cross = [{"p": "src", "k": "d", "m": 0o755}, {"p": "src/main" + (ext or ".txt"), "k": "f", "c": f"{pre} {word}\n".encode(), "m": 0o644},
+                 {"p": "src/conventions" + (ext or ".txt"), "k": "f", "c": ("\n".join(conv) + "\n").encode(), "m": 0o644}]
+        repl = gen.render(r.sample(gen.VOCAB, 2), "Snake")
+        out.append((same if k % 2 == 0 else cross, word, repl))
+        out.append((same + cross, word, repl))
+    return out
+
+
+def determinism(R, tree, search, replace, stats, fails, quick, i, reps=None):
+    with cli.Sandbox(tree) as sb:
+        ref = None
+        for nt in stats["thread_counts"]:
+            for rep in range(reps or (2 if quick else 5)):
+                rc, o, e = sb.run(["--no-auto-init", "plan", search, replace, "--dry-run", "--output", "json", "--quiet"],
+                                  env={"RAYON_NUM_THREADS": str(nt)})
+                stats["determinism_runs"] += 1
+                if rc != 0:
+                    fails.append({"why": "plan --dry-run failed", "threads": nt})
+                    continue
+                try:
+                    doc = json.loads(o.decode("utf-8"))
+                except Exception:
+                    fails.append({"why": "plan output is not one JSON document", "threads": nt})
+                    continue
+                c = canon(doc.get("plan", doc))
+                R.case(("det", i, nt, rep), nontrivial=True)
+                if ref is None:
+                    ref = c
+                    if i < 2:
+                        R.sample({"search": search, "matches": len(doc.get("plan", doc).get("matches", [])), "files": len(tree)})
+                elif c != ref:
+                    fails.append({"why": f"the plan differs between runs on an unchanged tree with unchanged arguments "
+                                         f"(RAYON_NUM_THREADS={nt}, repeat {rep})",
+                                  "tree": cli.tree_json(tree), "search": search, "replace": replace})
+                    return
+
+
 def run(R):
     R.trusted += ["Coq 8.16.1 kernel", "strace recording", "rayon / ignore crates"]
     proved = R.prove()
@@ -113,31 +167,13 @@ def run(R):
                     if not txt.startswith("target/\n") or ".renamify" not in txt:
                         fails.append({"why": "auto-init rewrote .gitignore instead of appending the documented line", "content": txt[:200]})
         # determinism across pool sizes and repeats
-        with cli.Sandbox(tree) as sb:
-            ref = None
-            for nt in stats["thread_counts"]:
-                for rep in range(2 if quick else 5):
-                    rc, o, e = sb.run(["--no-auto-init", "plan", search, replace, "--dry-run", "--output", "json", "--quiet"],
-                                      env={"RAYON_NUM_THREADS": str(nt)})
-                    stats["determinism_runs"] += 1
-                    if rc != 0:
-                        fails.append({"why": "plan --dry-run failed", "threads": nt})
-                        continue
-                    try:
-                        doc = json.loads(o.decode("utf-8"))
-                    except Exception:
-                        fails.append({"why": "plan output is not one JSON document", "threads": nt})
-                        continue
-                    c = canon(doc.get("plan", doc))
-                    R.case(("det", i, nt, rep), nontrivial=True)
-                    if ref is None:
-                        ref = c
-                        if i < 2:
-                            R.sample({"search": search, "matches": len(doc.get("plan", doc).get("matches", [])), "files": len(tree)})
-                    elif c != ref:
-                        fails.append({"why": f"the plan differs between runs (RAYON_NUM_THREADS={nt}, repeat {rep})",
-                                      "tree": cli.tree_json(tree), "search": search, "replace": replace})
-                        break
+        determinism(R, tree, search, replace, stats, fails, quick, i)
+    # ambiguous single-word terms whose style has to be guessed from context that is exactly tied between two styles: in the
+    # same file (>= 50 unambiguous identifiers, half snake, half camel; an extension without a language heuristic) and in
+    # sibling files of the same extension (the same preceding word followed by identifiers, three per style)
+    for k, (tree, search, replace) in enumerate(tie_scenarios(g, 2 if quick else 12)):
+        determinism(R, tree, search, replace, stats, fails, quick, 1000 + k, reps=4 if quick else 8)
+        stats["tie_scenarios"] = stats.get("tie_scenarios", 0) + 1
     R.coverage["input_distribution"] = stats
     for f in fails[:3]:
         R.violation(f["why"], {"kind": "impl_failure", **f})
